@@ -7,7 +7,7 @@
 From Coq Require Import NArith List Bool String.
 From Verif Require Import Livepatch.Heap Livepatch.Patch Livepatch.Xreload
                           Livepatch.PatchProofs Livepatch.XreloadProofs Livepatch.FrameProofs
-                          Livepatch.ShapeProofs Livepatch.TermProofs.
+                          Livepatch.ShapeProofs Livepatch.TermProofs Livepatch.Wf Livepatch.KindProofs Livepatch.TotalProofs.
 Import ListNotations.
 
 (* rollback: the new source raises at any statement index an exception of ANY class exc - the handler is a
@@ -187,6 +187,41 @@ Theorem C16_termination_nested : forall modname newmod_dict bases_ok nm fuel s s
   lp modname newmod_dict bases_ok nm fuel s stack old new <> OutOfFuel.
 Proof. exact termination_nested. Qed.
 Print Assumptions C16_termination_nested.
+
+(* ---------- patch_total ---------- *)
+(* well-formedness (Wf.wf_heap: unique addresses, every stored address allocated, kinds consistent with the fields)
+   is evaluated by the harness on every snapshot.  Its kind part and the heap domain are invariant under livepatch: *)
+Theorem C16_kinds_preserved : forall modname newmod_dict bases_ok nm fuel h m_old m_new s' r,
+  livepatch_module modname newmod_dict bases_ok nm fuel h m_old m_new = Ok s' r ->
+  forall a, okind (lookup (hp s') a) = okind (lookup h a).
+Proof. exact livepatch_module_kind_preserved. Qed.
+Print Assumptions C16_kinds_preserved.
+
+(* patch_total - "patching a successfully executed new version never raises" - is FALSE, also for the repaired code:
+   on a well-formed heap in which a dict of the new side is also a value of the old side the nested patch empties it
+   and the enclosing loop fails (KeyError).  Reproduced on the real code: known finding C16-f.  Hence failures inside
+   the patch phase exist and leave partial patches: no `rollback_no_partial_patches`. *)
+Theorem C16_patch_total_refuted :
+  exists h m_old m_new modname nm,
+    wf_heap h = true /\
+    exists s, livepatch_module modname (scratch_dict h m_new) (fun _ _ => true) nm (S (List.length h)) h m_old m_new = Raised s.
+Proof. exact patch_total_refuted. Qed.
+Print Assumptions C16_patch_total_refuted.
+
+(* patch_total_partial: the dict loop (module dict, instance dicts, function dicts, dict data) never raises by
+   itself - every key it reads is still there - when the nested calls do not raise and do not write the NEW dict
+   (separation of old and new side; the harness evaluates it for the scratch module's dict on every run) *)
+Theorem C16_patch_total_partial : forall (rec : recT),
+  (forall s st a b s' r, rec s st a b = Ok s' r ->
+     forall d e, In d st -> Some d <> None -> lookup (hp s) d = Some (ODict e) -> lookup (hp s') d = Some (ODict e)) ->
+  forall s stk d1 d2 eo en,
+  In d1 stk ->
+  lookup (hp s) d1 = Some (ODict eo) -> lookup (hp s) d2 = Some (ODict en) -> d1 <> d2 ->
+  (forall s0 a b s1 r1, rec s0 stk a b = Ok s1 r1 -> lookup (hp s1) d2 = lookup (hp s0) d2) ->
+  (forall s0 a b s1, rec s0 stk a b <> Raised s1) ->
+  forall s1, patch_dict rec s stk d1 d2 <> Raised s1.
+Proof. exact patch_dict_total. Qed.
+Print Assumptions C16_patch_total_partial.
 
 (* non-vacuity: a two-function module (f kept and re-coded, g replaced because its cell value differs,
    h deleted, k added) patched by the model *)
